@@ -52,6 +52,79 @@ EVENTS = {
     'on_connection_failed': lambda h, p, c: h.on_connection_failed(PEER, 'Connection refused'),
     'big_update': lambda h, p, c: h.update_received(p, c.time(), {'attr': {1: 0}, 'nlri': BIG, 'withdraw': [], 'afi_safi': 'ipv4'}),
 }
+
+
+def get_event(name):
+    """EVENTS plus events whose payload is what the real decoder makes of a message: 'upd:<hex body>:<asn4>' / 'open:<hex body>'"""
+    if name in EVENTS:
+        return EVENTS[name]
+    kind, hx = name.split(':', 1)
+    if kind == 'upd':
+        from yabgp.message.update import Update
+        from yabgp.common import constants as bgp_cons
+        hx, a4 = hx.split(':')
+        r = Update.parse(None, bytes.fromhex(hx), a4 == '1')
+        afi_safi = None
+        at = r['attr'] or {}
+        if r['nlri'] or r['withdraw']:
+            afi_safi = 'ipv4'
+        elif isinstance(at.get(14), dict):
+            afi_safi = bgp_cons.AFI_SAFI_DICT.get(tuple(at[14]['afi_safi']))
+        elif isinstance(at.get(15), dict):
+            afi_safi = bgp_cons.AFI_SAFI_DICT.get(tuple(at[15]['afi_safi']))
+        payload = {'attr': r['attr'], 'nlri': r['nlri'], 'withdraw': r['withdraw'], 'afi_safi': afi_safi}   # as BGP._update_received builds it
+        return lambda h, p, c: h.update_received(p, c.time(), payload)
+    if kind == 'open':
+        from yabgp.message.open import Open
+        payload = Open().parse(bytes.fromhex(hx))
+        return lambda h, p, c: h.open_received(p, c.time(), payload)
+    raise KeyError(name)
+
+
+def decoded_payload_events():
+    """one event per message of the unit-test corpus (and a few families the tests lack) that the agent's decoder accepts: what
+    reaches the log in production is the decoder's output, not a hand-written JSON-clean dict"""
+    import struct
+    from .. import seeds, budget
+    from ..ref import wire
+    from yabgp.message.update import Update
+    from yabgp.message.open import Open
+    out = []
+    seen = set()
+    bodies = []
+    for s_ in seeds.unit_test_bytes():
+        for body in (s_, s_[19:] if s_[:16] == b'\xff' * 16 and len(s_) > 19 else None):
+            if body is not None and 4 <= len(body) <= 4000:
+                bodies.append(body)
+
+    def mp(afi, safi, nlri):
+        v = struct.pack('!HBB', afi, safi, 4) + b'\x0a\x00\x00\x01\x00' + nlri
+        a = b'\x40\x01\x01\x00\x40\x02\x00' + struct.pack('!BBH', 0x90, 14, len(v)) + v
+        return b'\x00\x00' + struct.pack('!H', len(a)) + a
+
+    def unreach(afi, safi, nlri):
+        v = struct.pack('!HB', afi, safi) + nlri
+        a = struct.pack('!BBH', 0x90, 15, len(v)) + v
+        return b'\x00\x00' + struct.pack('!H', len(a)) + a
+    for afi, safi in ((1, 16), (1, 2), (2, 2), (3, 1), (25, 65), (16388, 72), (1, 129), (2, 129), (65535, 255)):
+        bodies.append(mp(afi, safi, b'\x18\x0a\x01\x01'))
+        bodies.append(unreach(afi, safi, b'\x18\x0a\x01\x01'))
+    for body in bodies:
+        for a4 in (True, False):
+            st, r, _ = budget.run(200000, Update.parse, None, body, a4)
+            if st == 'ok' and isinstance(r, dict) and not r.get('sub_error') and (r['attr'] or r['nlri'] or r['withdraw']):
+                name = 'upd:%s:%d' % (body.hex(), a4)
+                if body not in seen:
+                    seen.add(body)
+                    out.append(name)
+                break
+        st, r, _ = budget.run(200000, lambda: Open().parse(body))
+        if st == 'ok' and isinstance(r, dict) and ('open', body) not in seen:
+            seen.add(('open', body))
+            out.append('open:' + body.hex())
+    return out
+
+
 QUICK_ALPHABET = ['update_received', 'open_received', 'keepalive_received', 'on_connection_lost']
 FULL_ALPHABET = list(EVENTS)
 THRESHOLDS = {'inf': 500 * 1024 * 1024, 'every-update': 1, 'every-2nd-update': 200}
@@ -116,7 +189,7 @@ class Sim(object):
         self.clock.tick()
         before = self.snapshot()
         try:
-            EVENTS[name](self.handler, self.peer, self.clock)
+            get_event(name)(self.handler, self.peer, self.clock)
         except Exception as e:   # noqa
             self.problems.append('handler callback %s raised %s' % (name, type(e).__name__))
         after = self.snapshot()
@@ -257,7 +330,26 @@ def last_record_len(threshold_name, hist, advance=True):
     return len(after[n]) - len(before.get(n, ''))
 
 
+def task_payload(names):
+    out = []
+    n = 0
+    classes = set()
+    for name in names:
+        hist = ('open_received', name)
+        ln = last_record_len('inf', hist)
+        for off in (None, 1, max(1, ln // 2), max(1, ln - 1)) if ln else (None,):
+            sym, cls = scenario('inf', hist, off, ('update_received',), None, True)
+            n += 1
+            classes.add(('payload', name.split(':')[0], cls, bool(sym)))
+            for s_, crash_cls, residue in sym:
+                out.append(('C20|decoded-payload|%s|%s|%s' % (name.split(':')[0], crash_cls, s_),
+                            {'threshold': 'inf', 'history': list(hist), 'crash_offset': off, 'continuation': ['update_received'], 'second': None, 'advance': True}))
+    return n, out, classes
+
+
 def task(args):
+    if args[0] == 'payload':
+        return task_payload(args[1])
     thr, hist, conts, seconds, advance, all_offsets = args
     out = []
     n = 0
@@ -353,6 +445,10 @@ def run(tier, seed):
         for thr in THRESHOLDS:
             for h in (('big_update',), ('update_received', 'big_update'), ('big_update', 'update_received')):
                 tasks.append((thr, h, conts[:1 + len(calpha)], [None, ('update_received',)], True, False))
+    # what the decoder really hands to the handler: one scenario per decodable message, clean restart and two torn offsets
+    decoded = decoded_payload_events()
+    for i in range(0, len(decoded), 8):
+        tasks.append(('payload', decoded[i:i + 8]))
     results = explore.pmap(task, tasks, chunk=1)
     explore.close_pool()
     total = 0
@@ -372,7 +468,8 @@ def run(tier, seed):
                 'distinct_nontrivial = distinct (threshold, history length, crash class, residue class, continuation length, second restart)'
                 % (hl, alpha, list(THRESHOLDS), cl),
         'samples': [{'threshold': t[0], 'history': list(t[1]), 'crash': 'clean and every byte offset of the last record',
-                     'continuations': [list(c) for c in report.pick(t[2], seed, 2)], 'clock_advances': t[4]} for t in report.pick(tasks, seed, 3)],
+                     'continuations': [list(c) for c in report.pick(t[2], seed, 2)], 'clock_advances': t[4]} for t in report.pick([x for x in tasks if x[0] != 'payload'], seed, 3)],
+        'decoded_payload_events': len(decoded),
         'histories': len(hists), 'continuations': len(conts), 'shim_vs_real_directory_histories': nbind,
         'exhaustive': True, 'violation_keys': summary,
     }
@@ -381,7 +478,7 @@ def run(tier, seed):
                            'temporary directory on every history of length <= 2',
                            'crash model: any prefix of the bytes appended by the last event may be on disk; earlier records are durable '
                            '(write_msg flushes and fsyncs every record)',
-                           'simplejson is a stdlib-json shim; payloads use JSON-native types only'], tm.wall(), n_new)
+                           'simplejson is a stdlib-json shim; the hand-written payloads use JSON-native types only, the decoded-payload events carry whatever the agent\'s decoder returns for every unit-test message it accepts'], tm.wall(), n_new)
     return 1 if n_new else 0
 
 
@@ -405,5 +502,6 @@ def replay(path):
     for n, t in sorted(s.snapshot().items()):
         print('  %s: %r' % (n, t[-300:]))
     keys = ['C20|%s|%s|%s' % (c, r, x) for x, c, r in a[0]]
+    keys += ['C20|decoded-payload|%s|%s|%s' % (h.split(':')[0], c, x) for x, c, r in a[0] for h in w['history'][1:2] if ':' in h]
     print('symptoms:', keys)
     return 1 if d['key'] in keys else 0
